@@ -121,29 +121,544 @@ Proof.
     + destruct (wq s) as [|[r| |] rest] eqn:Eq.
       * unfold wait_pred in Ew. rewrite Eq in Ew. discriminate.
       * unfold wl_result. cbn. repeat split; auto. right. left. exists r, false.
-        rewrite updf_same. repeat split; auto. left. left. reflexivity.
+        rewrite updf_same. repeat split; auto. left. rewrite Eq. left. reflexivity.
       * destruct (threshold (c_n c) <=? running s).
         -- destruct (IH c t w aux (set_wq s (rest ++ [ISlowMsg]))) as (E1 & E2 & E3 & K).
            unfold wl_result. cbn in *. repeat split; auto.
            destruct K as [K | [(r & b & K1 & K2 & K3) | K]]; [left; exact K | | right; right; exact K].
            right. left. exists r, b. repeat split; auto.
            destruct K2 as [K2 | K2]; [|right; exact K2]. left.
-           apply in_app_or in K2. destruct K2 as [K2 | [K2 | []]]; [right; exact K2 | discriminate].
+           rewrite Eq. apply in_app_or in K2. destruct K2 as [K2 | [K2 | []]]; [right; exact K2 | discriminate].
         -- destruct (sp s) as [|r sp'] eqn:Esp.
            ++ destruct (IH c t w aux (set_wq s rest)) as (E1 & E2 & E3 & K).
               unfold wl_result. cbn in *. repeat split; auto.
               destruct K as [K | [(r & b & K1 & K2 & K3) | K]]; [left; exact K | | right; right; exact K].
               right. left. exists r, b. repeat split; auto.
-              destruct K2 as [K2 | K2]; [left; right; exact K2 | rewrite Esp in K2; destruct K2].
+              destruct K2 as [K2 | K2]; [left; rewrite Eq; right; exact K2 | right; exact K2].
            ++ unfold wl_result.
               destruct sp' as [|r2 sp''].
               ** cbn. repeat split; auto. right. left. exists r, true. rewrite updf_same.
-                 repeat split; auto. right. left. reflexivity.
+                 repeat split; auto. right. rewrite Esp. left. reflexivity.
               ** match goal with |- context [signal_if_idle c t aux ?x] => set (s1 := x) end.
                  destruct (signal_if_idle_frame c t aux s1) as [F1 F2].
                  destruct (signal_if_idle_rel c t aux s1) as (G1 & G2 & G3 & G4 & G5 & G6 & G7).
                  cbn. rewrite F1, F2, G5, G6. cbn. repeat split; auto.
-                 right. left. exists r, true. rewrite updf_same. repeat split; auto. right. left. reflexivity.
+                 right. left. exists r, true. rewrite updf_same. repeat split; auto. right. rewrite Esp. left. reflexivity.
       * unfold wl_result. destruct (signal_frame c t aux s) as (F1 & F2 & F3 & F4).
         cbn. rewrite F1, F2, F3, F4. repeat split; auto. right. right. right. rewrite updf_same. auto.
+Qed.
+
+Lemma wstep_prefix_C c s t w aux s' :
+  (exists b, wk s w = WRelock b) \/ (exists sg, wk s w = WWait sg) ->
+  wstep c t w aux s = Some s' ->
+  exists s2, s' = wloop wloop_fuel c t w aux s2 /\ wq s2 = wq s /\ sp s2 = sp s /\
+             reqs s2 = reqs s /\ lp s2 = lp s /\ gmutex s2 = gmutex s /\ nreq s2 = nreq s.
+Proof.
+  unfold wstep. intros [[slow Epc] | [sg Epc]]; rewrite Epc.
+  - destruct (is_free (gmutex s)); [|discriminate]. intros E; apply some_eq in E; subst s'.
+    eexists. split; [reflexivity|]. destruct slow; cbn; repeat split; reflexivity.
+  - destruct ((sg || (aux =? 1)) && is_free (gmutex s)); [|discriminate].
+    intros E; apply some_eq in E; subst s'.
+    eexists. split; [reflexivity|]. cbn; repeat split; reflexivity.
+Qed.
+
+Lemma unf_running l (q : req) w :
+  r_st q = Queued -> unf l (mkReq (r_loop q) (r_kind q) (r_work q) (Running w)) = unf l q.
+Proof. intros E. unfold unf. cbn. rewrite E. reflexivity. Qed.
+
+Lemma InvC_worker_result c s s' w :
+  InvC c s -> w < c_n c ->
+  lp s' = lp s -> gmutex s' = gmutex s -> nreq s' = nreq s ->
+  (reqs s' = reqs s \/
+   exists r, r_st (reqs s r) = Queued /\
+             reqs s' = updf (reqs s) r
+                         (mkReq (r_loop (reqs s r)) (r_kind (reqs s r)) (r_work (reqs s r)) (Running w))) ->
+  (wait_pred c s' = false -> wk s' w <> WWait false) ->
+  InvC c s'.
+Proof.
+  intros H Hw El Eg En Er Hp. destruct H. constructor.
+  - intros l. rewrite El. apply c_loops_ok0.
+  - intros l. rewrite El, En. rewrite c_active0.
+    destruct Er as [-> | (r & Hq & ->)]; [reflexivity|].
+    symmetry. apply countr_same. symmetry. apply unf_running. exact Hq.
+  - intros l. rewrite Eg, El. apply c_gm0.
+  - intros K. exists w. split; [exact Hw | apply Hp; exact K].
+  - intros r. destruct Er as [-> | (r0 & Hq & ->)]; [apply c_looplt0|].
+    unfold updf. destruct (Nat.eqb_spec r r0); subst; cbn; [|apply c_looplt0].
+    intros _. apply c_looplt0. rewrite Hq. discriminate.
+Qed.
+
+Lemma countr_ext p n f g : (forall i, f i = g i) -> countr p n f = countr p n g.
+Proof.
+  intros H. unfold countr. f_equal. apply filter_ext. intros i. rewrite H. reflexivity.
+Qed.
+
+Lemma complete_fields t w r slow s :
+  (forall r0, reqs (complete t w r slow s) r0 =
+              updf (reqs s) r (mkReq (r_loop (reqs s r)) (r_kind (reqs s r)) WNull Finished) r0) /\
+  lp (complete t w r slow s) =
+    updf (lp s) (r_loop (reqs s r))
+         (lset_pending (lset_wq (lp s (r_loop (reqs s r))) (l_wq (lp s (r_loop (reqs s r))) ++ [r])) true) /\
+  nreq (complete t w r slow s) = nreq s /\ gmutex (complete t w r slow s) = gmutex s /\
+  wq (complete t w r slow s) = wq s /\ running (complete t w r slow s) = running s /\
+  wk (complete t w r slow s) = updf (wk s) w (WRelock slow).
+Proof.
+  unfold complete. cbn. repeat split; auto.
+  intros r0. unfold updf. destruct (Nat.eqb_spec r0 r); subst; cbn; [|reflexivity].
+  rewrite Nat.eqb_refl. reflexivity.
+Qed.
+
+Lemma loop_ok_wq_pending x q : loop_ok x -> loop_ok (lset_pending (lset_wq x q) true).
+Proof.
+  unfold loop_ok, cur_op. cbn. intros (K1 & K2 & K3 & K4 & K5).
+  split; [exact K1 | split; [exact K2 | split; [exact K3 | split; [exact K4 | intros _; left; reflexivity]]]].
+Qed.
+
+Lemma InvC_wstep c s t w aux s' :
+  InvA c s -> InvB c s -> InvC c s -> w < c_n c ->
+  wstep c t w aux s = Some s' -> InvC c s'.
+Proof.
+  intros HA HB HC Hw Hstep.
+  destruct (wk s w) as [slow | sg | r slow |] eqn:Epc.
+  - destruct (wstep_prefix_C c s t w aux s') as (s2 & -> & E1 & E2 & E3 & E4 & E5 & E6); eauto.
+    destruct (wloop_shape wloop_fuel c t w aux s2) as (F1 & F2 & F3 & K).
+    apply (InvC_worker_result c s _ w HC Hw); try congruence.
+    + destruct K as [(_ & _ & K) | [(r & b & _ & K2 & K3) | [(_ & K) | (_ & K)]]]; try (left; congruence).
+      right. exists r. split; [| rewrite K3, E3; reflexivity].
+      apply (a_queued c s HA). rewrite <- E1, <- E2.
+      apply in_or_app. destruct K2 as [K2 | K2]; [left | right; exact K2].
+      unfold wq_reqs. apply in_flat_map. exists (IWork r). split; [exact K2 | left; reflexivity].
+    + intros Kp. destruct K as [(_ & K & _) | [(r & b & K & _) | [(K & _) | (K & _)]]]; congruence.
+  - destruct (wstep_prefix_C c s t w aux s') as (s2 & -> & E1 & E2 & E3 & E4 & E5 & E6); eauto.
+    destruct (wloop_shape wloop_fuel c t w aux s2) as (F1 & F2 & F3 & K).
+    apply (InvC_worker_result c s _ w HC Hw); try congruence.
+    + destruct K as [(_ & _ & K) | [(r & b & _ & K2 & K3) | [(_ & K) | (_ & K)]]]; try (left; congruence).
+      right. exists r. split; [| rewrite K3, E3; reflexivity].
+      apply (a_queued c s HA). rewrite <- E1, <- E2.
+      apply in_or_app. destruct K2 as [K2 | K2]; [left | right; exact K2].
+      unfold wq_reqs. apply in_flat_map. exists (IWork r). split; [exact K2 | left; reflexivity].
+    + intros Kp. destruct K as [(_ & K & _) | [(r & b & K & _) | [(K & _) | (K & _)]]]; congruence.
+  - (* complete *)
+    unfold wstep in Hstep. rewrite Epc in Hstep. apply some_eq in Hstep. subst s'.
+    assert (r_st (reqs s r) = Running w) as Hst by (apply (a_running c s HA); eauto).
+    destruct (complete_fields t w r slow s) as (Er & El & En & Eg & Eq & Erun & Ewk).
+    set (Q := mkReq (r_loop (reqs s r)) (r_kind (reqs s r)) WNull Finished) in *.
+    assert (forall l, countr (unf l) (nreq s) (reqs (complete t w r slow s)) =
+                      countr (unf l) (nreq s) (reqs s)) as Ec.
+    { intros l. rewrite (countr_ext _ _ _ _ Er). apply countr_same.
+      unfold unf, Q. cbn. rewrite Hst. reflexivity. }
+    destruct HC. constructor.
+    + intros l. rewrite El. unfold updf. destruct (Nat.eqb_spec l (r_loop (reqs s r))); [|apply c_loops_ok0].
+      subst l. apply loop_ok_wq_pending. apply c_loops_ok0.
+    + intros l. rewrite En, Ec, El. unfold updf.
+      destruct (Nat.eqb_spec l (r_loop (reqs s r))); [subst l; cbn|]; apply c_active0.
+    + intros l. rewrite Eg, El. intros K. destruct (c_gm0 l K) as [K1 [r0 K2]]. split; [exact K1|].
+      exists r0. unfold updf. destruct (Nat.eqb_spec l (r_loop (reqs s r))); cbn; [subst l|]; exact K2.
+    + intros _. exists w. split; [exact Hw|]. rewrite Ewk, updf_same. discriminate.
+    + intros r0. rewrite Er. unfold updf.
+      destruct (Nat.eqb_spec r0 r); subst; cbn; [|apply c_looplt0].
+      intros _. apply c_looplt0. rewrite Hst. discriminate.
+  - unfold wstep in Hstep. rewrite Epc in Hstep. discriminate.
+Qed.
+
+(* ================================================================== *)
+(* loop threads *)
+
+Definition p5 (c : config) (s : state) : Prop :=
+  wait_pred c s = false -> exists w, w < c_n c /\ wk s w <> WWait false.
+
+Record InvL (c : config) (s : state) : Prop := mkInvL {
+  l_loops_ok : forall l, loop_ok (lp s l);
+  l_act : actives_ok s;
+  l_gm : forall l, gmutex s = Some l -> l < c_loops c /\ exists r, l_pc (lp s l) = LCancel2 r;
+  l_looplt : forall r, r_st (reqs s r) <> RFree -> r_loop (reqs s r) < c_loops c
+}.
+
+Lemma InvC_split c s : InvC c s <-> InvL c s /\ p5 c s.
+Proof.
+  split.
+  - intros []. split; [constructor; auto | exact c_p6].
+  - intros [[] H]. constructor; auto.
+Qed.
+
+Lemma p5_sameB c s s' : sameB s s' -> p5 c s -> p5 c s'.
+Proof.
+  intros (E1 & E2 & E3 & E4 & E5 & E6 & E7) H. unfold p5, wait_pred in *. rewrite E1, E3, E6. exact H.
+Qed.
+
+Definition local_ok (l : nat) (s : state) : Prop :=
+  NoDup (l_local (lp s l)) /\
+  forall r, In r (l_local (lp s l)) ->
+    r < nreq s /\ r_loop (reqs s r) = l /\ unf_st (r_st (reqs s r)) = true.
+
+(* everything InvL says, except about the pc of loop l, which is being rewritten *)
+Record InvLx (c : config) (l : nat) (s : state) : Prop := mkInvLx {
+  x_act : actives_ok s;
+  x_others : forall l', l' <> l -> loop_ok (lp s l');
+  x_gm : forall l', gmutex s = Some l' ->
+           l' <> l /\ l' < c_loops c /\ exists r, l_pc (lp s l') = LCancel2 r;
+  x_looplt : forall r, r_st (reqs s r) <> RFree -> r_loop (reqs s r) < c_loops c;
+  x_wqp : l_wq (lp s l) <> [] -> l_pending (lp s l) = true;
+  x_local : local_ok l s
+}.
+
+Definition settle_pc (x : loopst) : lpc :=
+  match l_prog x with
+  | _ :: _ => LReady
+  | [] => if Nat.eqb (l_active x) 0 then LEnd else LDrain
+  end.
+
+Lemma settle_eq l s : settle l s = set_loop s l (lset_pc (lp s l) (settle_pc (lp s l))).
+Proof. unfold settle, settle_pc. destruct (l_prog (lp s l)); reflexivity. Qed.
+
+(* InvL from InvLx plus what is known about the new record of loop l *)
+Lemma InvL_set_loop c l s x :
+  InvLx c l s -> loop_ok x -> l_active x = l_active (lp s l) ->
+  InvL c (set_loop s l x).
+Proof.
+  intros [] Hok Ha. constructor; cbn.
+  - intros l'. unfold updf. destruct (Nat.eqb_spec l' l); [exact Hok | apply x_others0; assumption].
+  - intros l'. cbn. unfold updf. destruct (Nat.eqb_spec l' l); [subst; rewrite Ha|]; apply x_act0.
+  - intros l' K. destruct (x_gm0 l' K) as (K1 & K2 & K3). split; [exact K2|].
+    unfold updf. destruct (Nat.eqb_spec l' l); [contradiction | exact K3].
+  - exact x_looplt0.
+Qed.
+
+Lemma InvL_settle c l s :
+  InvLx c l s -> l_cb (lp s l) = [] -> l_in_done (lp s l) = false -> InvL c (settle l s).
+Proof.
+  intros H Hcb Hd. rewrite settle_eq. apply InvL_set_loop; auto.
+  - destruct H. unfold loop_ok, settle_pc, cur_op. cbn. rewrite Hcb, Hd.
+    destruct (l_prog (lp s l)) eqn:Ep; [destruct (l_active (lp s l) =? 0) eqn:Ea|].
+    + repeat split; try discriminate; auto. intros _. apply Nat.eqb_eq. exact Ea.
+    + repeat split; try discriminate; auto.
+    + repeat split; try discriminate; auto; intros [K | [K | K]]; discriminate.
+Qed.
+
+(* one delivery: r becomes Done, active_reqs of its loop goes down *)
+Lemma actives_deliver1 l s r st x :
+  actives_ok s -> r < nreq s -> r_loop (reqs s r) = l -> unf_st (r_st (reqs s r)) = true ->
+  l_active x = pred (l_active (lp s l)) ->
+  actives_ok (set_loop (set_rst s r (Done st)) l x).
+Proof.
+  intros Ha Hr Hl Hu Hx l'.
+  set (Q := mkReq (r_loop (reqs s r)) (r_kind (reqs s r)) (r_work (reqs s r)) (Done st)).
+  change (l_active (updf (lp s) l x l') = countr (unf l') (nreq s) (updf (reqs s) r Q)).
+  pose proof (countr_updf (unf l') (nreq s) (reqs s) r Q Hr) as K.
+  assert (unf l' (reqs s r) = (l =? l')) as E1.
+  { unfold unf. rewrite Hl, Hu, andb_true_r. reflexivity. }
+  assert (unf l' Q = false) as E2.
+  { unfold unf, Q. cbn. apply andb_false_r. }
+  rewrite E1, E2 in K. cbn [b2n] in K.
+  unfold updf at 1. destruct (Nat.eqb_spec l' l).
+  - subst l'. rewrite Hx, (Ha l). rewrite Nat.eqb_refl in K. cbn in K. lia.
+  - rewrite (Ha l'). assert ((l =? l') = false) as E by (apply Nat.eqb_neq; congruence).
+    rewrite E in K. cbn in K. lia.
+Qed.
+
+Lemma InvLx_emit c l s e : InvLx c l s -> InvLx c l (emit s e).
+Proof. intros []. constructor; auto. Qed.
+
+Lemma InvLx_deliver1 c l s r rest st e :
+  InvLx c l s -> l_local (lp s l) = r :: rest ->
+  InvLx c l (emit (set_loop (set_rst s r (Done st)) l
+                     (lset_active (lset_local (lp s l) rest) (pred (l_active (lp s l))))) e).
+Proof.
+  intros H Hloc. apply InvLx_emit. destruct H.
+  destruct x_local0 as [Hnd Hin]. rewrite Hloc in Hnd, Hin.
+  destruct (Hin r (or_introl eq_refl)) as (Hr1 & Hr2 & Hr3).
+  inversion Hnd as [|? ? Hnotin Hnd']; subst.
+  constructor.
+  - apply actives_deliver1; auto.
+  - intros l' Hl. cbn. rewrite updf_other by exact Hl. apply x_others0. exact Hl.
+  - intros l' K. cbn in K. destruct (x_gm0 l' K) as (K1 & K2 & K3). split; [exact K1 | split; [exact K2|]].
+    cbn. rewrite updf_other by exact K1. exact K3.
+  - intros r0. cbn. unfold updf. destruct (Nat.eqb_spec r0 r); subst; cbn; [|apply x_looplt0].
+    intros _. apply x_looplt0. destruct (r_st (reqs s r)); try discriminate.
+  - cbn. rewrite updf_same. cbn. exact x_wqp0.
+  - unfold local_ok. cbn. rewrite updf_same. cbn. split; [exact Hnd'|].
+    intros r0 Hr0. assert (r0 <> r) by (intros ->; contradiction).
+    rewrite updf_other by assumption. apply Hin. right. exact Hr0.
+Qed.
+
+Lemma InvL_deliver c l : forall loc s,
+  InvLx c l s -> l_local (lp s l) = loc -> l_cb (lp s l) = [] -> l_in_done (lp s l) = true ->
+  InvL c (deliver c l loc s).
+Proof.
+  induction loc as [|r rest IH]; intros s H Hloc Hcb Hd; cbn [deliver].
+  - apply InvL_settle.
+    + pose proof H as H'. destruct H'. constructor; cbn; auto.
+      * intros l'. cbn. unfold updf. destruct (Nat.eqb_spec l' l); [subst; cbn|]; apply x_act0.
+      * intros l' Hl. rewrite updf_other by exact Hl. apply x_others0. exact Hl.
+      * intros l' K. destruct (x_gm0 l' K) as (K1 & K2 & K3). split; [exact K1 | split; [exact K2|]].
+        rewrite updf_other by exact K1. exact K3.
+      * rewrite updf_same. cbn. exact x_wqp0.
+      * unfold local_ok. cbn. rewrite updf_same. cbn. split; [constructor | intros r0 []].
+    + cbn. rewrite updf_same. cbn. exact Hcb.
+    + cbn. rewrite updf_same. reflexivity.
+  - set (st := match r_work (reqs s r) with WCancelled => UV_ECANCELED | _ => 0%Z end).
+    pose proof (InvLx_deliver1 c l s r rest st (EDone r l st) H Hloc) as H1.
+    destruct (c_beh c r) as [|o ops] eqn:Eb.
+    + apply IH.
+      * exact H1.
+      * cbn. rewrite updf_same. reflexivity.
+      * cbn. rewrite updf_same. cbn. exact Hcb.
+      * cbn. rewrite updf_same. cbn. exact Hd.
+    + apply InvL_set_loop.
+      * exact H1.
+      * unfold loop_ok, cur_op. cbn. rewrite updf_same. cbn.
+        repeat split; try discriminate; auto.
+        -- destruct H0 as [K | [K | K]]; discriminate.
+        -- destruct H0 as [K | [K | K]]; discriminate.
+        -- intros K. left. destruct H. apply x_wqp0. exact K.
+      * cbn. rewrite updf_same. reflexivity.
+Qed.
+
+Lemma loop_ok_ready x :
+  l_pc x = LReady -> cur_op x <> None -> (l_wq x <> [] -> l_pending x = true) -> loop_ok x.
+Proof.
+  intros E1 E2 E3. unfold loop_ok. rewrite E1.
+  split; [intros _; exact E2|]. split; [intros _; left; reflexivity|].
+  split; [intros [K | [K | K]]; discriminate|]. split; [discriminate|].
+  intros K. left. apply E3. exact K.
+Qed.
+
+Lemma InvLx_keep c l s x :
+  InvLx c l s ->
+  l_wq x = l_wq (lp s l) -> l_pending x = l_pending (lp s l) ->
+  l_active x = l_active (lp s l) -> l_local x = l_local (lp s l) ->
+  InvLx c l (set_loop s l x).
+Proof.
+  intros [] E1 E2 E3 E4. constructor; cbn; auto.
+  - intros l'. cbn. unfold updf. destruct (Nat.eqb_spec l' l); [subst; rewrite E3|]; apply x_act0.
+  - intros l' Hl. rewrite updf_other by exact Hl. apply x_others0. exact Hl.
+  - intros l' K. destruct (x_gm0 l' K) as (K1 & K2 & K3). split; [exact K1 | split; [exact K2|]].
+    rewrite updf_other by exact K1. exact K3.
+  - rewrite updf_same, E1, E2. exact x_wqp0.
+  - unfold local_ok in *. cbn. rewrite updf_same, E4. exact x_local0.
+Qed.
+
+Lemma pop_op_fields x :
+  l_wq (pop_op x) = l_wq x /\ l_pending (pop_op x) = l_pending x /\
+  l_active (pop_op x) = l_active x /\ l_local (pop_op x) = l_local x /\
+  l_in_done (pop_op x) = l_in_done x.
+Proof. unfold pop_op. destruct (l_cb x); cbn; auto. Qed.
+
+Lemma InvL_advance c l s : InvLx c l s -> InvL c (advance c l s).
+Proof.
+  intros H. unfold advance.
+  destruct (pop_op_fields (lp s l)) as (E1 & E2 & E3 & E4 & E5).
+  pose proof (InvLx_keep c l s (pop_op (lp s l)) H E1 E2 E3 E4) as H1.
+  destruct (l_cb (pop_op (lp s l))) as [|o ops] eqn:Ecb.
+  - destruct (l_in_done (pop_op (lp s l))) eqn:Ed.
+    + apply InvL_deliver; auto; cbn; rewrite updf_same; auto.
+    + apply InvL_settle; auto; cbn; rewrite updf_same; auto.
+  - apply InvL_set_loop; auto.
+    + apply loop_ok_ready; cbn.
+      * reflexivity.
+      * unfold cur_op. cbn. rewrite Ecb. discriminate.
+      * intros K. destruct H. rewrite E2. apply x_wqp0. rewrite <- E1. exact K.
+    + cbn. rewrite updf_same. reflexivity.
+Qed.
+
+(* InvLx only looks at lp, nreq, reqs and gmutex *)
+Lemma InvLx_ext c l s s' :
+  InvLx c l s -> lp s' = lp s -> nreq s' = nreq s -> reqs s' = reqs s -> gmutex s' = gmutex s ->
+  InvLx c l s'.
+Proof.
+  intros [] E1 E2 E3 E4. unfold actives_ok, local_ok in *.
+  constructor; unfold actives_ok, local_ok; rewrite ?E1, ?E2, ?E3, ?E4; auto.
+Qed.
+
+Lemma NoDup_app_r {A} (a b : list A) : NoDup (a ++ b) -> NoDup b.
+Proof. induction a as [|x a IH]; cbn; [auto|]. intros H. inversion H; subst. auto. Qed.
+Lemma NoDup_app_l {A} (a b : list A) : NoDup (a ++ b) -> NoDup a.
+Proof.
+  induction a as [|x a IH]; cbn; [constructor|]. intros H. inversion H as [|? ? Hn Hd]; subst.
+  constructor; [|auto]. intros K. apply Hn. apply in_or_app. left. exact K.
+Qed.
+
+Lemma loopq_member_ok c s l r :
+  InvA c s -> In r (l_wq (lp s l) ++ l_local (lp s l)) ->
+  r < nreq s /\ r_loop (reqs s r) = l /\ unf_st (r_st (reqs s r)) = true.
+Proof.
+  intros HA Hin. apply (a_loopq c s HA) in Hin. destruct Hin as [Hl Hst].
+  assert (unf_st (r_st (reqs s r)) = true) as Hu by (destruct Hst as [-> | ->]; reflexivity).
+  split; [|split; assumption].
+  destruct (Nat.lt_ge_cases r (nreq s)) as [K | K]; [exact K|].
+  apply (a_free c s HA) in K. rewrite K in Hu. discriminate.
+Qed.
+
+Lemma InvLx_of c l s s' :
+  InvL c s -> InvA c s -> l_pc (lp s l) <> LWorkDone ->
+  lp s' = lp s -> nreq s' = nreq s -> reqs s' = reqs s ->
+  (gmutex s' = gmutex s /\ gmutex s <> Some l) \/ gmutex s' = None ->
+  InvLx c l s'.
+Proof.
+  intros [] HA Hpc E1 E2 E3 Eg. unfold actives_ok in *.
+  constructor; unfold actives_ok, local_ok; rewrite ?E1, ?E2, ?E3; auto.
+  - intros l' K. destruct Eg as [[Eg Hn] | Eg]; [|congruence].
+    rewrite Eg in K. destruct (l_gm0 l' K) as [K1 K2]. split; [congruence | split; assumption].
+  - intros K. destruct (l_loops_ok0 l) as (_ & _ & _ & _ & K5). destruct (K5 K); [assumption | contradiction].
+  - split.
+    + eapply NoDup_app_r. apply (a_nodup_l c s HA).
+    + intros r Hr. apply (loopq_member_ok c s l r HA). apply in_or_app. right. exact Hr.
+Qed.
+
+Lemma post_frame c l aux r k s :
+  lp (post c l aux r k s) = lp s /\ nreq (post c l aux r k s) = nreq s /\
+  reqs (post c l aux r k s) = reqs s /\ gmutex (post c l aux r k s) = gmutex s.
+Proof.
+  unfold post.
+  assert (forall s0, lp (signal_if_idle c l aux s0) = lp s0 /\ nreq (signal_if_idle c l aux s0) = nreq s0 /\
+                     reqs (signal_if_idle c l aux s0) = reqs s0 /\ gmutex (signal_if_idle c l aux s0) = gmutex s0) as K.
+  { intros s0. destruct (signal_if_idle_frame c l aux s0) as [F1 F2].
+    destruct (signal_if_idle_rel c l aux s0) as (_ & _ & _ & _ & G5 & G6 & _). auto. }
+  destruct k.
+  - cbn. match goal with |- context [signal_if_idle c l aux ?x] => destruct (K x) as (A1 & A2 & A3 & A4) end.
+    rewrite A1, A2, A3, A4. cbn. auto.
+  - cbn. match goal with |- context [signal_if_idle c l aux ?x] => destruct (K x) as (A1 & A2 & A3 & A4) end.
+    rewrite A1, A2, A3, A4. cbn. auto.
+  - match goal with |- context [if ?b then _ else _] => destruct b end.
+    + cbn. auto.
+    + cbn. match goal with |- context [signal_if_idle c l aux ?x] => destruct (K x) as (A1 & A2 & A3 & A4) end.
+      rewrite A1, A2, A3, A4. cbn. auto.
+Qed.
+
+Lemma InvLx_submit c l s k e :
+  InvLx c l s -> gmutex s = None -> l < c_loops c ->
+  InvLx c l (set_loop (set_req (set_nreq (emit s e) (S (nreq s))) (nreq s) (mkReq l k WFn Queued)) l
+                      (lset_active (lp s l) (S (l_active (lp s l))))).
+Proof.
+  intros [] Hg Hl. set (Q := mkReq l k WFn Queued).
+  constructor.
+  - intros l'.
+    change (l_active (updf (lp s) l (lset_active (lp s l) (S (l_active (lp s l)))) l') =
+            countr (unf l') (S (nreq s)) (updf (reqs s) (nreq s) Q)).
+    rewrite countr_S, countr_updf_out by lia. rewrite updf_same.
+    unfold updf. destruct (Nat.eqb_spec l' l).
+    + subst l'. cbn. rewrite (x_act0 l). unfold unf, Q. cbn. rewrite Nat.eqb_refl. cbn. lia.
+    + rewrite (x_act0 l'). unfold unf, Q. cbn.
+      assert ((l =? l') = false) as E by (apply Nat.eqb_neq; congruence). rewrite E. cbn. lia.
+  - intros l' Hn. cbn. rewrite updf_other by exact Hn. apply x_others0. exact Hn.
+  - intros l' K. cbn in K. congruence.
+  - intros r. cbn. unfold updf. destruct (Nat.eqb_spec r (nreq s)); [cbn; intros _; exact Hl | apply x_looplt0].
+  - cbn. rewrite updf_same. cbn. exact x_wqp0.
+  - destruct x_local0 as [Hnd Hin]. unfold local_ok. cbn. rewrite updf_same. cbn. split; [exact Hnd|].
+    intros r Hr. destruct (Hin r Hr) as (K1 & K2 & K3).
+    rewrite updf_other by lia. repeat split; auto.
+Qed.
+
+(* p5 after post *)
+Lemma waiters_nil_no_unsignalled n f :
+  waiters n f = [] -> forall w, w < n -> f w <> WWait false.
+Proof.
+  unfold waiters. intros H w Hw K.
+  assert (In w (filter (fun i => unsignalled (f i)) (seq 0 n))) as Hin.
+  { apply filter_In. split; [apply in_seq; lia | rewrite K; reflexivity]. }
+  rewrite H in Hin. destruct Hin.
+Qed.
+
+Lemma countw_zero_none p n f : countw p n f = 0 -> forall w, w < n -> p (f w) = false.
+Proof.
+  intros H w Hw. destruct (p (f w)) eqn:E; [|reflexivity].
+  pose proof (countw_pos p n f w Hw E). lia.
+Qed.
+
+Lemma countw_pos_exists p n f : 1 <= countw p n f -> exists w, w < n /\ p (f w) = true.
+Proof.
+  unfold countw. intros H.
+  destruct (filter (fun i => p (f i)) (seq 0 n)) as [|w rest] eqn:E; [cbn in H; lia|].
+  assert (In w (filter (fun i => p (f i)) (seq 0 n))) as K by (rewrite E; left; reflexivity).
+  apply filter_In in K. destruct K as [K1 K2]. apply in_seq in K1. exists w. split; [lia | exact K2].
+Qed.
+
+(* after signal_if_idle on a state satisfying InvB, some worker is not asleep unsignalled *)
+Lemma signal_if_idle_awake c t aux s :
+  InvB c s -> 1 <= c_n c ->
+  exists w, w < c_n c /\ wk (signal_if_idle c t aux s) w <> WWait false.
+Proof.
+  intros HB Hn. unfold signal_if_idle. destruct (0 <? idle s) eqn:Ei.
+  - apply Nat.ltb_lt in Ei. unfold signal. cbn [sync_ev emit wk].
+    destruct (waiters (c_n c) (wk s)) as [|a ws] eqn:Ew.
+    + destruct HB. rewrite b_idle in Ei. destruct (countw_pos_exists _ _ _ Ei) as (w & Hw & Hp).
+      exists w. split; [exact Hw|]. cbn. apply (waiters_nil_no_unsignalled _ _ Ew w Hw).
+    + set (i := nth (aux mod length (a :: ws)) (a :: ws) 0).
+      assert (In i (waiters (c_n c) (wk s))) as Hi.
+      { rewrite Ew. apply nth_In. apply Nat.mod_upper_bound. cbn [length]. lia. }
+      unfold waiters in Hi. apply filter_In in Hi. destruct Hi as [Hs _]. apply in_seq in Hs.
+      exists i. split; [lia|]. cbn. rewrite updf_same. discriminate.
+  - apply Nat.ltb_ge in Ei. destruct HB. exists 0. split; [lia|].
+    assert (idle s = 0) as E0 by lia. rewrite b_idle in E0.
+    pose proof (countw_zero_none _ _ _ E0 0 Hn) as K. intros K2. rewrite K2 in K. discriminate.
+Qed.
+
+Lemma p5_post c s l aux k x :
+  InvB c s -> p5 c s -> 1 <= c_n c ->
+  p5 c (post c l aux (nreq s) k
+          (set_loop (set_req (set_nreq (emit s (ESubmit (nreq s) l k)) (S (nreq s))) (nreq s)
+                             (mkReq l k WFn Queued)) l x)).
+Proof.
+  intros HB HP Hn. unfold post. destruct k.
+  - intros _.
+    match goal with |- context [signal_if_idle c l aux ?y] => assert (InvB c y) as HY end.
+    { eapply (InvB_enqueue c s l KCpu _ HB); cbn; auto. }
+    destruct (signal_if_idle_awake c l aux _ HY Hn) as (w & Hw & K).
+    exists w; split; [exact Hw | exact K].
+  - intros _.
+    match goal with |- context [signal_if_idle c l aux ?y] => assert (InvB c y) as HY end.
+    { eapply (InvB_enqueue c s l KFast _ HB); cbn; auto. }
+    destruct (signal_if_idle_awake c l aux _ HY Hn) as (w & Hw & K).
+    exists w; split; [exact Hw | exact K].
+  - cbn [sync_ev emit set_sp wq sp].
+    match goal with |- context [has_marker ?q] => change q with (wq s) end.
+    destruct (has_marker (wq s)) eqn:E.
+    + unfold p5, wait_pred in *. cbn. exact HP.
+    + intros _.
+      match goal with |- context [signal_if_idle c l aux ?y] => assert (InvB c y) as HY end.
+      { eapply (InvB_enqueue c s l KSlow _ HB); cbn; auto. rewrite E. auto. }
+      destruct (signal_if_idle_awake c l aux _ HY Hn) as (w & Hw & K).
+      exists w; split; [exact Hw | exact K].
+Qed.
+
+(* removing a request from the queues cannot make work appear *)
+Lemma wait_pred_remw c s r q' sp' :
+  q' = remw r (wq s) ->
+  wait_pred c (set_sp (set_wq s q') sp') = false -> wait_pred c s = false.
+Proof.
+  intros ->. unfold wait_pred. cbn [set_sp set_wq wq running].
+  destruct (wq s) as [|x [|y q]]; cbn.
+  - auto.
+  - destruct x as [r0| |]; cbn; auto.
+  - destruct x; auto.
+Qed.
+
+Lemma p5_lstep c s l aux s' :
+  InvB c s -> p5 c s -> 1 <= c_n c -> lstep c l aux s = Some s' -> p5 c s'.
+Proof.
+  intros HB HP Hn. unfold lstep.
+  destruct (l_pc (lp s l)) as [| r | r | | |] eqn:Epc.
+  - destruct (cur_op (lp s l)) as [[k | r |]|]; [| | |discriminate].
+    + destruct (is_free (gmutex s)); [|discriminate].
+      intros E; apply some_eq in E; subst s'.
+      eapply p5_sameB; [apply sameB_advance|]. apply p5_post; assumption.
+    + destruct (valid_cancel s l r).
+      * destruct (is_free (gmutex s)); [|discriminate].
+        intros E; apply some_eq in E; subst s'. eapply p5_sameB; [|exact HP]. sBe.
+      * intros E; apply some_eq in E; subst s'. eapply p5_sameB; [|exact HP]. sBe.
+    + destruct (l_cb (lp s l)).
+      * destruct (l_active (lp s l) =? 0); [| destruct (l_pending (lp s l))];
+          intros E; apply some_eq in E; subst s'; (eapply p5_sameB; [|exact HP]); sBe.
+      * intros E; apply some_eq in E; subst s'. eapply p5_sameB; [|exact HP]. sBe.
+  - match goal with |- context [if ?b then _ else _] => destruct b eqn:Ec end;
+      intros E; apply some_eq in E; subst s'.
+    + eapply p5_sameB; [sBe|].
+      intros K. apply (wait_pred_remw c (sync_ev s l (SLockQ l)) r _ _ eq_refl) in K.
+      destruct (HP K) as (w & Hw & Hk). exists w. split; [exact Hw | exact Hk].
+    + eapply p5_sameB; [|exact HP]. sBe.
+  - intros E; apply some_eq in E; subst s'. eapply p5_sameB; [|exact HP]. sBe.
+  - intros E; apply some_eq in E; subst s'. eapply p5_sameB; [|exact HP]. sBe.
+  - destruct (l_pending (lp s l)); [|discriminate].
+    intros E; apply some_eq in E; subst s'. eapply p5_sameB; [|exact HP]. sBe.
+  - discriminate.
 Qed.
